@@ -39,9 +39,14 @@ JacobianIncluded == \A c \in {0 - 3, 0, 5} : ShiftLogProb(c) = c /\ ShiftSampleL
 ASSUME SampleEvalAgree /\ VariantsRejected /\ JacobianIncluded
 
 \* refit: the same flow object is fitted twice (first on other data), as Aspire.fit does on a second call
-Cells == { [backend |-> b, bounded |-> bt, affine |-> a, dtype |-> d, state |-> s, refit |-> r] :
+\* names: how the declared bounds reach the transform.  The bounds belong to parameter *names*:
+\*   "sorted"   parameter list in alphabetical order, bounds mapping in the same order
+\*   "unsorted" parameter list NOT in alphabetical order (HDF5 returns keys alphabetically on reload)
+\*   "revdict"  bounds mapping written in the reverse order of the parameter list
+Cells == { [backend |-> b, bounded |-> bt, affine |-> a, dtype |-> d, state |-> s, refit |-> r, names |-> nm] :
              b \in {"zuko", "flowjax"}, bt \in {"logit", "probit", "off"}, a \in BOOLEAN,
-             d \in {"float32", "float64"}, s \in {"untrained", "trained", "reloaded"}, r \in BOOLEAN }
+             d \in {"float32", "float64"}, s \in {"untrained", "trained", "reloaded"}, r \in BOOLEAN,
+             nm \in {"sorted", "unsorted", "revdict"} }
 ASSUME PrintT(<<"NCASES", Cardinality(Cells)>>)
 ASSUME JsonSerialize(IOEnv.OUT_FILE, [cells |-> SetToSeq(Cells), shift_log_prob |-> ShiftLogProb(5),
                                        shift_sample_log_q |-> ShiftSampleLogQ(5)])
